@@ -34,7 +34,11 @@ def N(n, d=1, py="int"):
 
 UNIV = {
     "num": [N(-2), N(-1), N(0), N(1), N(1, 1, "float"), N(1, 2, "ratio"), N(1, 2, "float"),
-            N(3, 2, "dec"), N(2), N(10 ** 20), N(-10 ** 20 + 1), N(10 ** 20, 1, "float")],
+            N(3, 2, "dec"), N(2), N(10 ** 20), N(-10 ** 20 + 1), N(10 ** 20, 1, "float"),
+            # a double that is not a decimal fraction next to the decimals/ratios it rounds from: 0.1 (the double),
+            # 0.1M, 1/10, 0.10000000000000001M, 0.3 (the double), 0.3M -- exact comparison must tell them apart
+            N(3602879701896397, 36028797018963968, "float"), N(1, 10, "dec"), N(1, 10, "ratio"),
+            N(10000000000000001, 10 ** 17, "dec"), N(5404319552844595, 18014398509481984, "float"), N(3, 10, "dec")],
     "str": ["", "a", "b", "ab", "aa", "B", "é", "z", "a\u0000", "中", "\U0001f600", "ba"],
     "kw": [[None, "a"], [None, "b"], ["a", "a"], ["a", "b"], ["b", "a"], ["b", "b"], ["ab", "a"],
            ["a", "ab"], [None, "ab"], ["b", "ab"], ["ab", "b"], ["a.b", "c"]],
